@@ -31,7 +31,7 @@ META = {
                    "is raise-only. The relation between two runs is NOT decided."
                    " Also: truth table of the inheritance guard (provided or inherited), evaluation of any priority range guard at 1 / 500 / 1000, the default deadline of backward tasks being the declared project end, and the local-id identity census."
                    " Round 3: the scheduling horizon is never written as a task date (value closure through names and parameters), inheritance guard read as a formula whichever accessor spells it, limit-copy completeness, process-state rule."
-                   " Round 4: inheritance guard evaluated over the must-facts at the call (early exits count), priority range probes.",
+                   " Round 4: inheritance guard evaluated over the must-facts at the call (early exits count), priority range probes. Round 8: nothing that varies with the task is compared before the priority in the sort key.",
     "assumptions": [],
 }
 
